@@ -307,8 +307,9 @@ def eval_fact(fact, summaries):
     raise KeyError(name)
 
 
-def term_ob(label, template, group=None, neg=None):
-    return {'label': label, 'kind': 'term', 'template': template, 'group': group or label, 'neg': neg}
+def term_ob(label, template, group=None, neg=None, exact=False):
+    """exact: on replay the template is evaluated on the real outputs WITHOUT the relative tolerance (range claims)"""
+    return {'label': label, 'kind': 'term', 'template': template, 'group': group or label, 'neg': neg, 'exact': exact}
 
 
 def fact_ob(label, fact, group=None):
@@ -496,7 +497,7 @@ def compare_run(r, rep, m):
         if r.outcome.startswith('mpilot:'):
             if rep['exc'] != r.exc:
                 return "outcome sym=%s real=%s" % (r.outcome, rep['exc'])
-        elif not _exc_compatible(r.exc, rep['exc']):
+        elif not _exc_compatible(r.exc, rep['exc'], rep.get('msg')):
             return "outcome sym=%s real=%s (%s)" % (r.outcome, rep['exc'], rep.get('msg'))
         return _compare_after(r, rep, ev)
     if not rep['ok']:
@@ -538,8 +539,12 @@ _EXC_FAMILY = {
 }
 
 
-def _exc_compatible(symname, realname):
+def _exc_compatible(symname, realname, msg=''):
     if symname == realname:
+        return True
+    if symname == 'AttributeError' and realname == 'TypeError' and 'memoryview' in (msg or ''):
+        # a PLAIN ndarray's .data is a raw memoryview in numpy (ordering comparisons / indexing raise TypeError);
+        # the stand-in has no .data on plain arrays (AttributeError): the same failing access either way
         return True
     return realname in _EXC_FAMILY.get(symname, ())
 
@@ -587,6 +592,7 @@ class Stats(object):
         self.nomodel = 0
         self.done_groups = set()
         self.skipped_dups = 0
+        self.rounding_candidates = []
 
 
 def model_dict(ctx, m):
@@ -627,6 +633,8 @@ def make_on_path(cfg, stats, prop, validate=True, max_cex_per_group=2):
                 if seen_groups[key] >= max_cex_per_group:
                     stats.done_groups.add(o['group'])
                 stats.cex.append(rec)
+            elif rec.get('rounding_candidate'):
+                stats.rounding_candidates.append({'label': rec['label'], 'group': rec['group'], 'why': rec.get('why')})
             else:
                 stats.unreproduced.append(rec)
     return on_path
@@ -701,6 +709,23 @@ def _replay_cex(ctx, o, status_model, cfg, prop):
     rec['inputs'] = model_dict(ctx, m)
     rec['real'] = reps
     ok, why = judge(o, ctx_inputs_env(ctx, m), reps, ctx)
+    if not ok and cfg.get('rounding') and o.get('exact'):
+        # the counterexample exists under the rounding-error MODEL; look for real doubles that exhibit it: the same
+        # scenario with every value re-drawn so that all comparisons among the values keep their outcome
+        import random
+        rng = random.Random(cfg.get('seed', 0))
+        rec['rounding_candidate'] = True
+        for trial in range(cfg.get('resample', 400)):
+            rq2 = resample_requests(reqs, rng)
+            if rq2 is None:
+                continue
+            reps2 = WORKER.ask({'runs': rq2})['runs']
+            ok2, why2 = judge(o, {}, reps2, ctx)
+            if ok2:
+                ok, why = True, 'real doubles (re-drawn values, trial %d): %s' % (trial, why2)
+                rec['runs'], rec['real'], rec['inputs'] = rq2, reps2, {}
+                break
+    rec['exact'] = bool(o.get('exact'))
     rec['reproduced'] = ok
     rec['why'] = why
     if o['kind'] == 'term':
@@ -737,10 +762,75 @@ def judge(o, env_inputs, reps, ctx=None):
     env = dict(env_inputs)
     env.update(real_env(ctx, reps) if ctx is not None else {})
     try:
-        holds = geval(o['template'], env)
+        holds = geval(o['template'], env, tolerant=not o.get('exact'))
     except EvalError as e:
         return False, 'template not evaluable on the real outputs: %s; outcomes %s' % (e, [s['outcome'] for s in summaries])
     return (not holds), 'obligation evaluated on the real outputs: %s' % holds
+
+
+def _numbers_of(reqs):
+    """all float-typed numbers of a list of concrete run requests, as (container, key) slots"""
+    slots = []
+
+    def walk(spec):
+        t = spec.get('t')
+        if t == 'arr' and spec.get('kind') == 'f':
+            for i in range(len(spec['data'])):
+                slots.append((spec['data'], i))
+        elif t == 'arrlist':
+            for it in spec['items']:
+                walk(it)
+        elif t == 'num' and isinstance(spec['v'], float):
+            slots.append((spec, 'v'))
+        elif t == 'list':
+            for i, x in enumerate(spec['v']):
+                if isinstance(x, float):
+                    slots.append((spec['v'], i))
+    for rq in reqs:
+        for spec in rq['kwargs'].values():
+            if isinstance(spec, dict):
+                walk(spec)
+    return slots
+
+
+def resample_requests(reqs, rng):
+    """a copy of the requests in which every distinct float value is replaced by another one such that all order
+    and equality relations among the values, and with the landmarks -1, 0 and 1, are preserved (the landmarks
+    themselves stay): the path taken through the code is the same, the rounding of its arithmetic is not"""
+    import copy
+    new = copy.deepcopy(reqs)
+    slots = _numbers_of(new)
+    vals = sorted({float(c[k]) for c, k in slots})
+    marks = [-1.0, 0.0, 1.0]
+    mapping = {}
+    bounds = [float('-inf')] + marks + [float('inf')]
+    for lo, hi in zip(bounds, bounds[1:]):
+        seg = [v for v in vals if lo < v < hi]
+        if not seg:
+            continue
+        a = lo if lo != float('-inf') else min(seg[0], -2.0) * 4 - 3
+        b = hi if hi != float('inf') else max(seg[-1], 2.0) * 4 + 3
+        style = rng.choice(['decimal1', 'decimal3', 'thirds', 'free'])
+        pts = set()
+        guard = 0
+        while len(pts) < len(seg) and guard < 1000:
+            guard += 1
+            x = rng.uniform(a, b)
+            if style == 'decimal1':
+                x = round(x, 1)
+            elif style == 'decimal3':
+                x = round(x, 3)
+            elif style == 'thirds':
+                x = round(x * 3) / 3.0
+            if a < x < b and x not in marks:
+                pts.add(x)
+        if len(pts) < len(seg):
+            return None
+        for old, nv in zip(seg, sorted(pts)):
+            mapping[old] = nv
+    for c, k in slots:
+        c[k] = mapping.get(float(c[k]), c[k])
+    return new
 
 
 # ------------------------------------------------------------------ generic job runner
@@ -748,6 +838,9 @@ def run_scenario_job(scenario, cfg, prop, seed=0, max_paths=6000, validate=True,
     import time
     global SPLIT_MASKS
     SPLIT_MASKS = bool(cfg.get('split_masks'))
+    symnp.ROUNDING['on'] = bool(cfg.get('rounding'))
+    if cfg.get('rounding'):
+        validate = False        # the error terms have no counterpart to compare on the real code; reports are replayed anyway
     t0 = time.time()
     stats = Stats()
     on_path = make_on_path(cfg, stats, prop, validate=validate)
@@ -764,6 +857,8 @@ def run_scenario_job(scenario, cfg, prop, seed=0, max_paths=6000, validate=True,
         'validated': stats.validated, 'mismatches': stats.mismatches[:10], 'payload_diffs': stats.payload_diffs,
         'cex': stats.cex, 'unreproduced': stats.unreproduced[:10], 'samples': stats.samples,
         'outside': stats.outside, 'nomodel': stats.nomodel, 'wall_s': time.time() - t0,
+        'notes': (['%d counterexample(s) under the rounding-error model did not show up with real doubles in the re-drawn replays, e.g. %s'
+                   % (len(stats.rounding_candidates), stats.rounding_candidates[0]['label'])] if stats.rounding_candidates else []),
     }
 
 
@@ -778,7 +873,7 @@ def replay_record(rec):
         violated, why = judge_plain(o, env, reps, rec)
     else:
         tmpl = z3.And(*z3.parse_smt2_string(rec['template_smt2']))
-        o = {'kind': 'term', 'template': tmpl}
+        o = {'kind': 'term', 'template': tmpl, 'exact': bool(rec.get('exact'))}
         env = {}
         for n, v in rec['inputs'].items():
             env[n] = Fraction(v) if isinstance(v, str) else v
@@ -809,7 +904,7 @@ def judge_plain(o, env_inputs, reps, rec):
         runs = fake
     env.update(real_env(_C, reps))
     try:
-        holds = geval(o['template'], env)
+        holds = geval(o['template'], env, tolerant=not o.get('exact'))
     except EvalError as e:
         return False, 'template not evaluable on the real outputs: %s' % e
     return (not holds), 'obligation evaluated on the real outputs: %s' % holds
@@ -971,7 +1066,8 @@ def oracle_obligations(spec, kw, snap, run, want=('mask', 'value', 'kind', 'type
     j = run.idx
     if run.outcome != 'ok':
         return obs, None
-    if 'type' in want:
+    if 'type' in want and any(isinstance(h.arr, symnp.MaskedArray) for h in arrays_of(kw)):
+        # (when no input is a masked array a plain result has lost nothing)
         obs.append(fact_ob('result is a masked array (a plain array has lost its missing cells)', ('masked_result', j), group='type'))
     if 'shape' in want and in_shape is not None:
         obs.append(fact_ob('result shape equals input shape', ('shape_is', j, list(in_shape)), group='shape'))
